@@ -30,15 +30,17 @@ CASE_TYPE = "C16.Corr.case"
 RUNNER = "C16.Corr.run"
 FINDING_CLASSES = {1: "C16-F1", 2: "C16-F2", 3: "C16-F3"}
 RULE = ("complete product sign_response x sign_assertion x encrypt_assertion x encrypted_advice_attributes x "
-        "encrypt_assertion_self_contained x pefim (64) x 14 certificate sources (metadata KeyDescriptors with use "
+        "encrypt_assertion_self_contained x pefim (64) x 15 certificate sources (metadata KeyDescriptors with use "
         "encryption / unspecified / signing, one or two certificates in both orders, an unusable certificate before a "
-        "usable one / alone, none; explicit encrypt_cert_assertion / encrypt_cert_advice, equal, different, unusable) "
-        "through Server.create_authn_response = 896 cells; Entity._response (called as Server._authn_response calls it) "
+        "usable one / alone, none; explicit encrypt_cert_assertion / encrypt_cert_advice, equal, different, unusable, "
+        "incl. advice for a per-request certificate with the assertion for the metadata certificate) through Server.create_authn_response = 960 cells; Entity._response (called as Server._authn_response calls it) "
         "with a hand-built Advice of 1 or 2 assertions x the same 64 flag combinations x 1-2 certificate sources, and 32 "
         "seeded flag combinations each for: no certificate, advice assertion without Issuer, empty Advice (thorough: "
         "5 advice shapes x 22 certificate sources x 64); seeded random widening of both entries (advice of 0-3); identities are random marker values (1-4 attributes, 1-2 "
-        "values).  Every wire form is given to 5 recipients: key sets {sp}, {sp,spenc2} in a random order, a wrong key or "
-        "no key, the matching keys with a damaged ciphertext (bit flip in the encrypted key / first ciphertext byte / "
+        "values).  Every wire form is given to 5 recipients: configured key {sp}; two key pairs, either both configured "
+        "(rotation, either order) or one configured and one supplied per request through outstanding_certs (filed under "
+        "the Response's InResponseTo or under another id); a wrong key or no key; the matching keys (configured / split "
+        "configured + per-request) with a damaged ciphertext (bit flip in the encrypted key / first ciphertext byte / "
         "last ciphertext byte / truncation), and a random key set, under random want_response_signed / "
         "want_assertions_signed.  Finding classes: 1 (early return, fixed 316cbbe5) and 2 (double pre_encrypt_assertion, "
         "fixed a5d8e540) are recognised as regressions, 3 (Advice with >= 2 assertions) is open.  non-trivial = distinct "
@@ -87,9 +89,9 @@ CERT_SOURCES = [
     ([("sp", "encryption")], "spenc2", None),
     ([("sp", "encryption")], BAD, None),
     ([("sp", "signing"), ("spenc2", "encryption")], None, None),
+    ([("sp", "encryption")], None, "spenc2"),   # advice for a per-request certificate, assertion for the metadata one
 ]
 EXTRA_SOURCES = [
-    ([("sp", "encryption")], None, "spenc2"),
     ([("sp", "encryption")], None, BAD),
     ([], "sp", "sp"),
     ([], None, "spenc2"),
@@ -114,19 +116,28 @@ def random_attrs(rng, names, tag, lo=1, hi=3):
 
 
 def mk_trials(rng):
+    """Recipients.  keys = configured encryption_keypairs (in order); req = private keys handed in per request through
+    outstanding_certs; hit = they are filed under the InResponseTo of the Response (else under another id)."""
     pol = lambda: (rng.random() < 0.3, rng.random() < 0.3)  # noqa: E731
-    two = rng.choice([["sp", "spenc2"], ["spenc2", "sp"]])
     wrong = rng.choice([["other"], [], ["attacker", "other"], ["idp"]])
     ck = rng.choice(["ek", "iv0", "last", "trunc"])
     rk = rng.choice([["sp"], ["spenc2"], ["other", "sp"], ["spenc2", "other"], ["sp", "spenc2"], ["spenc2"]])
-    ts = [
-        {"keys": ["sp"], "wr": False, "wa": False, "corrupt": None},
-        {"keys": two, "wr": pol()[0], "wa": pol()[1], "corrupt": None},
-        {"keys": wrong, "wr": False, "wa": False, "corrupt": None},
-        {"keys": ["sp", "spenc2"], "wr": False, "wa": False, "corrupt": ck},
-        {"keys": rk, "wr": pol()[0], "wa": pol()[1], "corrupt": rng.choice([None, None, None, ck])},
+    # two key pairs: both configured (rotation), or one configured and one per-request
+    split = rng.choice([(["sp", "spenc2"], [], True), (["spenc2", "sp"], [], True),
+                        (["sp"], ["spenc2"], True), (["spenc2"], ["sp"], True),
+                        (["sp"], ["other", "spenc2"], True), (["sp"], ["spenc2"], False)])
+    rreq = rng.choice([([], True), ([], True), (["spenc2"], True), (["sp"], True), (["other"], True), (["sp"], False)])
+
+    def t(keys, wr, wa, corrupt, req=(), hit=True):
+        return {"keys": list(keys), "wr": wr, "wa": wa, "corrupt": corrupt, "req": list(req), "hit": hit}
+
+    return [
+        t(["sp"], False, False, None),
+        t(split[0], pol()[0], pol()[1], None, split[1], split[2]),
+        t(wrong, False, False, None, rng.choice([[], [], ["other"]])),
+        t(["sp"], False, False, ck, ["spenc2"]) if rng.random() < 0.5 else t(["sp", "spenc2"], False, False, ck),
+        t(rk, pol()[0], pol()[1], rng.choice([None, None, None, ck]), rreq[0], rreq[1]),
     ]
-    return ts
 
 
 def mk_case(rng, entry, flags, src, leaves_spec, tag):
@@ -407,17 +418,58 @@ def sp_over(trial):
             "sp_want_assertions_signed": bool(trial["wa"]), "sp_want_assertions_or_response_signed": False}
 
 
+_pem = {}
+
+
+def pem_text(path):
+    if path not in _pem:
+        with open(path) as f:
+            _pem[path] = f.read()
+    return _pem[path]
+
+
 def receive(xml, trial):
+    """The real Saml2Client.parse_authn_request_response, with per-request keys through outstanding_certs."""
     sp = spaccept.get_sp(sp_over(trial))
     if trial["corrupt"]:
         xml = damage(xml, trial["corrupt"])
-    o = spaccept.observe(sp, xml, world.BINDING_HTTP_POST, {"req-1": "/"})
-    if not o["identity"]:
-        return {"id": None, "exc": o["exc"]}
+    oc = None
+    if trial.get("req"):
+        entry = [{"key": pem_text(fixtures.key_path(k)), "cert": pem_text(fixtures.cert_path(k))} for k in trial["req"]]
+        if len(entry) == 1 and len(trial["req"][0]) % 2:
+            entry = entry[0]          # a single dict instead of a list: both forms are accepted by _parse_response
+        oc = {("req-1" if trial.get("hit", True) else "req-other"): entry}
+    res = {"id": None, "exc": None}
+    r = None
+    try:
+        r = sp.parse_authn_request_response(c16_b64(xml), world.BINDING_HTTP_POST, {"req-1": "/"}, outstanding_certs=oc)
+    except Exception as e:  # noqa
+        res["exc"] = type(e).__name__
+    if r is None:
+        return res
+    nid = getattr(r, "name_id", None)
+    name_id = getattr(nid, "text", None) if nid is not None else None
+    ava = getattr(r, "ava", None)
+    si = None
+    try:
+        si = r.session_info()
+    except Exception:
+        si = None
+    try:
+        cached = bool(list(sp.users.subjects()))
+    except Exception:
+        cached = False
+    if not (name_id is not None or ava or getattr(r, "assertion", None) is not None or si is not None or cached):
+        return res
     vals = []
-    for _k, vs in sorted((o["ava"] or {}).items()):
+    for _k, vs in sorted((ava or {}).items()):
         vals.extend(vs if isinstance(vs, list) else [vs])
-    return {"id": [o["name_id"] or "", sorted(vals)], "exc": o["exc"]}
+    res["id"] = [name_id or "", sorted(vals)]
+    return res
+
+
+def c16_b64(xml):
+    return base64.b64encode(xml.encode("utf-8")).decode("ascii")
 
 
 def observe(case):
@@ -494,8 +546,9 @@ def coq_case(case, obs):
     trials = []
     for t, r in zip(case["trials"], obs["trials"]):
         rid = "None" if r["id"] is None else "(Some (%s, %s))" % (cq(r["id"][0]), cq(r["id"][1]))
-        trials.append(Raw("(mktrial %s %s %s %s, %s)" % (cq(list(t["keys"])), cq(bool(t["wr"])), cq(bool(t["wa"])),
-                                                          cq(bool(t["corrupt"])), rid)))
+        trials.append(Raw("(mktrial %s %s %s %s %s %s, %s)" % (
+            cq(list(t["keys"])), cq(bool(t["wr"])), cq(bool(t["wa"])), cq(bool(t["corrupt"])),
+            cq(list(t.get("req") or [])), cq(bool(t.get("hit", True))), rid)))
     copt = lambda n: "None" if n is None else "(Some %s)" % cq_cert(n)  # noqa: E731
     return "C16.Corr.mk %s %s %s %s %s %s %s %s %s %s %s %s %s %s %s %s" % (
         "Server" if case["entry"] == "server" else "Entity",
@@ -537,7 +590,9 @@ def histogram(cases, observed):
             h["trial_outcome"]["identity" if r["id"] is not None else "none"] += 1
             if r["exc"]:
                 h["trial_exceptions"][r["exc"]] = h["trial_exceptions"].get(r["exc"], 0) + 1
-            kk = "keys=%s%s" % ("+".join(tr["keys"]) or "-", " damaged:" + tr["corrupt"] if tr["corrupt"] else "")
+            kk = "keys=%s%s%s" % ("+".join(tr["keys"]) or "-",
+                                  (" req=%s%s" % ("+".join(tr["req"]), "" if tr.get("hit", True) else "(other id)")) if tr.get("req") else "",
+                                  " damaged:" + tr["corrupt"] if tr["corrupt"] else "")
             h["trial_kinds"][kk] = h["trial_kinds"].get(kk, 0) + 1
     return h
 
